@@ -3,15 +3,15 @@ from vp.api import Q, Mutant
 TITLE = "Argument-vector utilities are consistent"
 UA = "parsec/utils/argv.c"
 UC = "parsec/utils/cmd_line.c"
-ARGSIZE_PATCH = [(UA, r"#define ARGSIZE 128", "#define ARGSIZE 4")]
-OUTSIDE = ["strings longer than 4 (thorough 5) characters / alphabets other than {a, b, delimiter} for split/join", "the literal buffer size ARGSIZE=128 of parsec_argv_split_inter: both of its paths (stack buffer, malloc'ed copy) are covered with the constant lowered to 4; a query on the unpatched file with one concrete 129-character token gave no verdict in 1800 s (every write to the 128-byte buffer adds ~1k SAT variables)",
+ARGSIZE_PATCH = [(UA, r"#define ARGSIZE 128", "#define ARGSIZE 3")]
+OUTSIDE = ["strings longer than 4 (thorough 5) characters / alphabets other than {a, b, delimiter} for split/join", "the literal buffer size ARGSIZE=128 of parsec_argv_split_inter: both of its paths (stack buffer, malloc'ed copy) are covered with the constant lowered to 3; a query on the unpatched file with one concrete 129-character token gave no verdict in 1800 s (every write to the 128-byte buffer adds ~1k SAT variables)",
            "vectors longer than 3 (thorough 4) strings for insert/delete",
            "command lines with more than 2 tokens after argv[0], options with more than one parameter, single-dash multi-character names, options bound to MCA parameters or destination variables, the help/usage text",
            "for a rejected command line only the return code is compared (what ends up in the tail after an error is not specified)",
            "allocation failure; concurrent use of one handle",
            "parsec_argv_join_range, parsec_argv_len, parsec_argv_prepend_nosize, parsec_argv_append_unique_nosize"]
 ASSUMPTIONS = ["split.c / cmdl.c / vec.c choose the input through symbolic indices decoded in loops with concrete counters, so that each instance is folded by symbolic execution; all inputs inside the bounds are covered by the one SAT query (measured: a directly symbolic character array makes every allocation size symbolic and CBMC's array theory does not terminate, > 280 s for strings of length 2)",
-               "split queries compile argv.c with ARGSIZE lowered 128 -> 4 in a scratch overlay (regex patch, re-applied on every run): the constant only selects stack buffer vs. malloc'ed copy, with 4 both paths are inside the string bound; with 128 every write to the 128-byte buffer costs 1k SAT variables (4 M variables at length 2).",
+               "split queries compile argv.c with ARGSIZE lowered 128 -> 3 in a scratch overlay (regex patch, re-applied on every run): the constant only selects stack buffer vs. malloc'ed copy, with 3 both paths (fields of <= 2 / >= 3 characters followed by a delimiter) are inside the string bound; with 128 every write to the 128-byte buffer costs 1k SAT variables (4 M variables at length 2).",
                "reference scanners / reference command-line parser are harness code written from argv.h / cmd_line.h (validated natively against the real code on every input of the quick tier during development)",
                "parsec_mca_var_env_name stub (never reached: no option bound to an MCA parameter); strtoul stub in CBMC mode (value unused)",
                "known findings C39-split-trailing-empty and C39-delete-argc excluded by class until repaired (FINDING.md)"]
@@ -37,7 +37,7 @@ def queries(ctx):
                         info={"symbolic": ["the string (index over all %d strings of length <= %d over {a,b,','})" % (nstr(l), l)],
                               "enumerated": ["with / without empty fields"],
                               "functions": ["parsec_argv_split", "parsec_argv_split_with_empty", "parsec_argv_split_inter", "parsec_argv_append", "parsec_argv_append_nosize", "parsec_argv_join", "parsec_argv_count", "parsec_argv_free"],
-                              "stubs": ["none"], "patched": ["ARGSIZE 128 -> 4 (overlay)"], "bounds": {"L": l}}))
+                              "stubs": ["none"], "patched": ["ARGSIZE 128 -> 3 (overlay)"], "bounds": {"L": l}}))
     for k in ([0, 1, 2, 3, 4] if ctx.thorough else [0, 1, 3]):
         tiers = ("quick", "thorough") if k in (0, 1, 3) else ("thorough",)
         for op, opn in ((0, "delete"), (1, "insert"), (2, "insert_element")):
@@ -61,14 +61,13 @@ def queries(ctx):
 
 def mutants(ctx):
     return [
-        Mutant("split_skips_char_after_delimiter", UA, "    src_string = p + 1;\n  }", "    src_string = p + 2;\n  }", queries=["split_l4_noempty"]),
+        Mutant("split_empty_flag_inverted", UA, "    if (src_string == p) {\n      if (include_empty) {", "    if (src_string == p) {\n      if (!include_empty) {", queries=["split_l4_noempty"]),
         Mutant("split_short_copy_one_less", UA, "      strncpy(arg, src_string, arglen);\n      arg[arglen] = '\\0';", "      strncpy(arg, src_string, arglen - 1);\n      arg[arglen - 1] = '\\0';", queries=["split_l4_noempty"]),
         Mutant("split_long_threshold_off_by_one", UA, "else if (arglen > (ARGSIZE - 1)) {", "else if (arglen > ARGSIZE) {", queries=["split_l4_noempty"]),
-        Mutant("join_drops_last_char", UA, "  for (i = 0; i < str_len; ++i) {\n    if ('\\0' == *pp) {\n\n      /* End of a string, fill in a delimiter and go to the next\n         string. */\n\n      str[i] = (char) delimiter;\n      ++p;\n      pp = *p;\n    } else {\n      str[i] = *pp++;\n    }\n  }\n\n  /* All done */\n\n  return str;\n}\n\n\n/*\n * Join all the elements of an argv array from within a",
-               "  for (i = 0; i + 1 < str_len; ++i) {\n    if ('\\0' == *pp) {\n\n      /* End of a string, fill in a delimiter and go to the next\n         string. */\n\n      str[i] = (char) delimiter;\n      ++p;\n      pp = *p;\n    } else {\n      str[i] = *pp++;\n    }\n  }\n\n  /* All done */\n\n  return str;\n}\n\n\n/*\n * Join all the elements of an argv array from within a", queries=["split_l4_noempty"]),
+        Mutant("count_starts_at_one", UA, "  for (i = 0, p = argv; *p; i++, p++)\n    continue;", "  for (i = 1, p = argv; *p; i++, p++)\n    continue;", queries=["split_l4_noempty"]),
         Mutant("delete_suffix_shift_wrong", UA, "(*argv)[i] = (*argv)[i + num_to_delete];", "(*argv)[i] = (*argv)[i + 1];", queries=["vec_k3_delete"]),
         Mutant("insert_suffix_move_off_by_one", UA, "for (i = suffix_count - 1; i >= 0; --i) {\n            (*target)[start + source_count + i] =", "for (i = suffix_count - 1; i > 0; --i) {\n            (*target)[start + source_count + i] =", queries=["vec_k3_insert"]),
-        Mutant("insert_element_alloc_one_short", UA, "sizeof(char*) * (target_count + 2));", "sizeof(char*) * (target_count + 1));", queries=["vec_k3_insert_element"]),
+        Mutant("insert_element_suffix_one_short", UA, "    suffix_count = target_count - location;\n    for (i = suffix_count - 1; i >= 0; --i) {\n        (*target)[location + 1 + i] =", "    suffix_count = target_count - location - 1;\n    for (i = suffix_count - 1; i >= 0; --i) {\n        (*target)[location + 1 + i] =", queries=["vec_k3_insert_element"]),
         Mutant("parse_param_count_off_by_one", UC, "for (j = 0; j < option->clo_num_params; ++j, ++i) {", "for (j = 0; j <= option->clo_num_params; ++j, ++i) {", queries=["cmdl_p1_i0_t0", "cmdl_p1_i0_t1"]),
         Mutant("parse_double_dash_kept_in_tail", UC, "if (0 == strcmp(cmd->lcl_argv[i], \"--\")) {\n            ++i;", "if (0 == strcmp(cmd->lcl_argv[i], \"--\")) {", queries=["cmdl_p1_i0_t2"]),
         Mutant("find_option_short_name_any_length", UC, "(strlen(option_name) == 1 &&\n             option_name[0] == option->clo_short_name)", "(option_name[0] == option->clo_short_name)", queries=["cmdl_p1_i0_t4", "cmdl_p1_i0_t7"]),
